@@ -16,6 +16,7 @@ CONSTANTS
   MaxBurst = 1000
   CanonKinds = FALSE
   PoolAny = FALSE
+  MaxPause = 0
   Debug = FALSE
 POSTCONDITION Accepted
 CHECK_DEADLOCK FALSE
